@@ -26,6 +26,8 @@ fn main() {
         Some("aux") if args.len() >= 3 => sandbox::aux_main(&args[2], &args[3..]),
         // stand-alone GDSII reader, run under cachegrind by C10's linear-time part
         Some("gdsread") if args.len() >= 3 => props::c10::gdsread_main(&args[2]),
+        // stand-alone LEF reader, run under cachegrind by C11's linear-time part
+        Some("lefread") if args.len() >= 3 => props::c11lin::lefread_main(&args[2]),
         Some("list") => {
             for id in props::ALL {
                 println!("{id}");
